@@ -124,7 +124,7 @@ class SonyDSP(protocol_base.IrProtocolBase):
                 if self._last_code == code:
                     return self._last_code
 
-                self._last_code.refresh_timer.stop()
+                self._last_code.repeat_timer.stop()
                 self._last_code = None
 
             self._last_code = code
